@@ -195,10 +195,10 @@ def run(report, p):
     if len(wl) + len(fl) != 1:
         raise AnalysisError(f"{dec.qual}: decoder loop not recognised")
     if wl:
-        starts = [n for n in walk_no_nested(dec.node) if isinstance(n, ast.Assign) and isinstance(n.targets[0], ast.Name) and isinstance(n.value, ast.Constant) and isinstance(n.value.value, int) and not _inside_node(n, wl[0])]
+        starts = [n for n in walk_no_nested(dec.node) if isinstance(n, ast.Assign) and isinstance(n.targets[0], ast.Name) and isinstance(p.fold(n.value, dec), int) and not isinstance(p.fold(n.value, dec), bool) and not _inside_node(n, wl[0])]
         t = wl[0].test
         idxvar = norm(t.left) if isinstance(t, ast.Compare) else None
-        start = next((n.value.value for n in starts if n.targets[0].id == idxvar), None)
+        start = next((p.fold(n.value, dec) for n in starts if n.targets[0].id == idxvar), None)
         okd = idxvar is not None and isinstance(t.ops[0], ast.Lt) and p.fold(t.comparators[0], dec) == 90 and start == 2
         incs = [n for n in ast.walk(wl[0]) if (isinstance(n, ast.AugAssign) and norm(n.target) == idxvar and isinstance(n.op, ast.Add) and p.fold(n.value, dec) == 1) or (isinstance(n, ast.Assign) and norm(n.targets[0]) == idxvar and norm(n.value).replace(" ", "") in (f"{idxvar}+1", f"1+{idxvar}"))]
         okd = okd and len(incs) == 1
